@@ -194,8 +194,8 @@ func genEngineCfg(r *rand.Rand, p genParams) EngineCfg {
 	c.Outs = []string{"ok", "err"}
 	c.Cancel = p.PCancel > 0
 	c.CtxKind = "cancel"
-	if c.Cancel && r.Intn(2) == 0 {
-		c.CtxKind = "deadline"
+	if c.Cancel {
+		c.CtxKind = []string{"cancel", "deadline", "cause"}[r.Intn(3)]
 	}
 	c.Variant = r.Intn(2)
 	return c
@@ -314,9 +314,7 @@ func genEngineScenarios(seed int64, count int, mode string, emit func(cfg Engine
 			} else {
 				cfg2.OvKind = "cancel"
 				cfg2.Cancel = true
-				if (i+j)%2 == 0 {
-					cfg2.CtxKind = "deadline"
-				}
+				cfg2.CtxKind = []string{"deadline", "cancel", "cause"}[(i+j)%3]
 			}
 			evs2, _ := runEngineScenario(cfg2, scriptForGenerated(cfg2))
 			emit(cfg2, "gen:"+mode, evs2)
